@@ -70,9 +70,10 @@ impl WorkerOut {
 pub struct Job { pub payload: String, pub lo: u64, pub hi: u64 }
 
 #[derive(Clone, Debug, PartialEq, Eq)]
-pub enum CrashKind { Hang, Abort(String) }
+pub enum CrashKind { Hang, Abort(String), /// the worker itself timed a case out, named it, and exited
+  HangOn(String) }
 impl CrashKind {
-  pub fn class(&self) -> &'static str { match self { CrashKind::Hang => "hang", CrashKind::Abort(_) => "abort" } }
+  pub fn class(&self) -> &'static str { match self { CrashKind::Hang | CrashKind::HangOn(_) => "hang", CrashKind::Abort(_) => "abort" } }
 }
 
 pub enum Event {
@@ -91,9 +92,20 @@ pub trait UnitRunner {
 // ---------------------------------------------------------------------------------------------
 // worker side
 
+static PROTO_FD: std::sync::atomic::AtomicI32 = std::sync::atomic::AtomicI32::new(-1);
+
+/// called by a runner that timed one of its own cases out: names the case on the protocol channel and ends the worker
+/// (the stuck thread cannot be stopped); the pool reports a hang on exactly this case
+pub fn self_report_hang_and_exit(what: &str) -> ! {
+  let fd = PROTO_FD.load(std::sync::atomic::Ordering::SeqCst);
+  if fd >= 0 { let line = format!("H {}\n", what.replace('\n', "\\n")); unsafe { libc::write(fd, line.as_ptr() as *const libc::c_void, line.len()); } }
+  std::process::exit(3)
+}
+
 pub fn worker_loop(runner: &mut dyn UnitRunner) {
   // keep the protocol on a private fd; whatever the subject prints goes to /dev/null
   let proto_fd = unsafe { libc::dup(1) };
+  PROTO_FD.store(proto_fd, std::sync::atomic::Ordering::SeqCst);
   unsafe {
     let dn = libc::open(b"/dev/null\0".as_ptr() as *const libc::c_char, libc::O_WRONLY);
     libc::dup2(dn, 1);
@@ -195,10 +207,12 @@ fn run_job(cfg: &PoolCfg, slot: &mut Option<Proc>, job: &Job, jobid: u64, budget
     return Err("worker stdin closed before job".into());
   }
   let mut cur: Option<u64> = None;
+  let mut self_reported: Option<String> = None;
   loop {
     match p.rx.recv_timeout(budget) {
       Ok(Some(l)) => {
         if let Some(rest) = l.strip_prefix("S ") { cur = rest.trim().parse().ok(); }
+        else if let Some(rest) = l.strip_prefix("H ") { self_reported = Some(rest.to_string()); }
         else if let Some(rest) = l.strip_prefix("R ") {
           let mut it = rest.splitn(2, ' ');
           let _id = it.next();
@@ -215,6 +229,7 @@ fn run_job(cfg: &PoolCfg, slot: &mut Option<Proc>, job: &Job, jobid: u64, budget
           Ok(st) => match st.signal() { Some(s) => format!("signal {}", s), None => format!("exit {:?}", st.code()) },
           Err(e) => format!("{}", e),
         };
+        if let Some(h) = self_reported { return Ok(RunResult::Crash(cur.unwrap_or(job.lo), CrashKind::HangOn(h))); }
         return Ok(RunResult::Crash(cur.unwrap_or(job.lo), CrashKind::Abort(how)));
       }
       Err(RecvTimeoutError::Timeout) => {
